@@ -565,7 +565,41 @@ fn gen_directed(r: &mut Rng, prop: &str) -> (Vec<Op>, Vec<String>) {
         }
     };
     let tag;
-    match r.below(if prop == "C04" { 6 } else { 4 }) {
+    match r.below(if prop == "C04" { 8 } else { 5 }) {
+        4 if prop != "C04" => {
+            // late writer: the entity is first touched after the other writer committed and gc ran
+            tag = "directed:late-writer";
+            ops.push(Op::Begin(lv(r)));
+            ops.push(Op::Begin(lv(r)));
+            if r.chance(1, 2) { ops.push(Op::Write(2, e2)); }
+            ops.push(Op::Write(3, e));
+            ops.push(Op::Commit(3));
+            ops.push(Op::Gc);
+            ops.push(Op::Write(2, e));
+            gc(r, &mut ops);
+            ops.push(Op::Commit(2));
+            gc(r, &mut ops);
+            ops.push(Op::Commit(2));
+        }
+        6 | 7 => {
+            // late reader: a Serializable transaction first reads the entity after its overlapping
+            // writer committed and gc ran (what gc keeps of the writer must still refuse it)
+            tag = "directed:late-reader";
+            let (x, y) = (Ent::Node(1), Ent::Node(2));
+            ops.push(Op::Begin(if r.chance(3, 4) { Iso::Ser } else { lv(r) }));
+            ops.push(Op::Begin(if r.chance(1, 2) { Iso::Ser } else { lv(r) }));
+            if r.chance(1, 2) { ops.push(Op::Read(3, x)); ops.push(Op::Read(3, y)); }
+            ops.push(Op::Write(3, x));
+            ops.push(Op::Commit(3));
+            ops.push(Op::Gc);
+            ops.push(Op::Read(2, x));
+            if r.chance(1, 2) { ops.push(Op::Read(2, y)); }
+            ops.push(Op::Write(2, if r.chance(1, 3) { x } else { y }));
+            gc(r, &mut ops);
+            ops.push(Op::Commit(2));
+            gc(r, &mut ops);
+            ops.push(Op::Commit(2));
+        }
         0 => {
             // overlapping writers, both commit attempts
             tag = "directed:ww-overlap";
@@ -697,6 +731,11 @@ fn tm_case(prop: &str, kind: &str, ops: &[Op], mut tags: Vec<String>, r: &mut Rn
     // read-backs: at the end and at up to two interior points
     let mut dump_at = vec![ops.len()];
     if ops.len() > 2 {
+        // half of the time right after a Gc (what gc keeps is observable through get_write_set)
+        let after_gc: Vec<usize> = ops.iter().enumerate().filter(|(_, o)| **o == Op::Gc).map(|(i, _)| i + 1).collect();
+        if !after_gc.is_empty() && r.chance(1, 2) {
+            dump_at.push(*r.pick(&after_gc));
+        }
         dump_at.push(1 + r.below(ops.len() as u64 - 1) as usize);
         if r.chance(1, 4) {
             dump_at.push(1 + r.below(ops.len() as u64 - 1) as usize);
